@@ -115,7 +115,7 @@ def run(ctx):
     from space_packet_parser import xarr
     scratch = tempfile.mkdtemp(prefix="vmon-c18-", dir=os.environ.get("VMON_SCRATCH"))
     try:
-        for i in range(ctx.size(256, 8000)):
+        for i in range(ctx.size(384, 40000)):
             if not ctx.mine(i):
                 continue
             rng = random.Random(f"C18/{ctx.seed}/{i}")
@@ -241,13 +241,21 @@ def directed_nuls(ctx, scratch):
     from vmon.props.c05 import header_types
     ts, ps = header_types("PKT_APID")
     ts += [ir.PType("S_Type", "string", ir.StrEnc("US-ASCII", 24)), ir.PType("B_Type", "binary", ir.BinEnc(16)),
-           ir.PType("T_Type", "string", ir.StrEnc("UTF-8", 32, "3b"))]
-    ps += [ir.Param("S", "S_Type"), ir.Param("B", "B_Type"), ir.Param("T", "T_Type")]
+           ir.PType("T_Type", "string", ir.StrEnc("UTF-8", 32, "3b")), ir.PType("M_Type", "float", ir.FloatEnc(32, "MILSTD_1750A")),
+           ir.PType("H_Type", "float", ir.FloatEnc(16, "IEEE754")), ir.PType("W_Type", "integer", ir.IntEnc(64, "unsigned"))]
+    ps += [ir.Param("S", "S_Type"), ir.Param("B", "B_Type"), ir.Param("T", "T_Type"), ir.Param("M", "M_Type"), ir.Param("H", "H_Type"),
+           ir.Param("W", "W_Type")]
     root = ir.Container("CCSDSPacket", tuple(("p", p.name) for p in ps))
     doc = ir.Doc(tuple(ts), tuple(ps), (root,))
     defn = load_definition(render.render_doc(doc))
     info = harness.DocInfo(doc)
+    # M: 1750A values far below the float32 normal range (mantissa 0x400001, exponent -128 / -120), and the largest one;
+    # H: binary16 subnormal / max; W: 64-bit unsigned extremes
+    tails = [bytes.fromhex("40000180") + bytes.fromhex("0001") + bytes.fromhex("ffffffffffffffff"),
+             bytes.fromhex("c0000188") + bytes.fromhex("7bff") + bytes.fromhex("8000000000000001"),
+             bytes.fromhex("7fffff7f") + bytes.fromhex("fc00") + bytes.fromhex("0000000000000000")]
     bodies = [b"AB\x00" + b"\x01\x00" + b"x\x00;\x00", b"\x00\x00\x00" + b"\x00\x00" + b"\x00;AB", b"ABC" + b"\x00\x07" + b"ab;\x00"]
+    bodies = [b_ + t for b_, t in zip(bodies, tails)]
     raws = [bytes(P.create_ccsds_packet(b, apid=9, sequence_count=k)) for k, b in enumerate(bodies)]
     path = os.path.join(scratch, "nuls.bin")
     with open(path, "wb") as f:
@@ -260,7 +268,7 @@ def directed_nuls(ctx, scratch):
             ctx.violation(f"exception/{type(st.exc).__name__}/directed-nuls", repr(st.exc), {"mode": raw_mode})
             continue
         ds = st.value[9]
-        for name in ("S", "B", "T"):
+        for name in ("S", "B", "T", "M", "H", "W"):
             col = ds[name].values
             for ri, o in enumerate(outs):
                 v = dict(o.items)[name]
